@@ -111,8 +111,8 @@ func propC13(c *Ctx) {
 		c.writersTable("C13.R1", K, "Validators", setOf("Remove", "Clear"), []string{"(opchild/keeper.Keeper).RemoveValidator"})
 		c.writersTable("C13.R1", K, "ValidatorsByConsAddr", setOf("Set"), []string{"(opchild/keeper.Keeper).SetValidatorByConsAddr"})
 		c.writersTable("C13.R1", K, "ValidatorsByConsAddr", setOf("Remove", "Clear"), []string{"(opchild/keeper.Keeper).RemoveValidator"})
-		c.writersTable("C13.R1", K, "LastValidatorPowers", setOf("Set"), []string{"(opchild/keeper.Keeper).SetLastValidatorPower"})
-		c.writersTable("C13.R1", K, "LastValidatorPowers", setOf("Remove", "Clear"), []string{"(opchild/keeper.Keeper).DeleteLastValidatorPower"})
+		c.writersTable("C13.R1", K, "LastValidatorPowers", setOf("Set"), []string{"(opchild/keeper.Keeper).ApplyAndReturnValidatorSetUpdates", "(opchild/keeper.Keeper).InitGenesis"})
+		c.writersTable("C13.R1", K, "LastValidatorPowers", setOf("Remove", "Clear"), []string{"(opchild/keeper.Keeper).ApplyAndReturnValidatorSetUpdates"})
 		callersTable(c, "C13.R1", c.Method(childKeeper, "Keeper", "SetValidator"),
 			[]string{"(opchild/keeper.MsgServer).AddValidator", "(opchild/keeper.MsgServer).RemoveValidator", "(opchild/keeper.Keeper).ChangeExecutor", "(opchild/keeper.Keeper).InitGenesis"})
 		callersTable(c, "C13.R1", c.Method(childKeeper, "Keeper", "RemoveValidator"), []string{"(opchild/keeper.Keeper).ApplyAndReturnValidatorSetUpdates"})
@@ -696,8 +696,10 @@ func propC14(c *Ctx) {
 			return (s.Kind == SMapSet || s.Kind == SMapDel) && s.Field == "ExecutorChangePlans"
 		}) {
 			o2.Sites++
-			if fnShort(s.Root()) != "(opchild/keeper.Keeper).RegisterExecutorChangePlan" {
-				o2.Fail(c.W.Pos(s.Pos), string(s.Kind)+" in "+fnShort(s.Root()), nil)
+			for _, r := range eff.OwnerNames(s) {
+				if r != "(opchild/keeper.Keeper).RegisterExecutorChangePlan" {
+					o2.Fail(c.W.Pos(s.Pos), string(s.Kind)+" in "+r+attributedNote(s, r), nil)
+				}
 			}
 		}
 		if o2.Sites == 0 {
